@@ -10,6 +10,7 @@ import Driver.Bind
 import Driver.Distances
 import Driver.Shmem
 import Driver.Helpers
+import Driver.Restrict
 open Driver
 
 def main (args : List String) : IO UInt32 := do
@@ -51,6 +52,9 @@ def main (args : List String) : IO UInt32 := do
     return 0
   | ["helpers"] =>
     lineLoop stdin stdout HelpersEng.init HelpersEng.step
+    return 0
+  | "restrict" :: rest =>
+    lineLoop stdin stdout (RestrictEng.init (rest.contains "selfcheck") (rest.contains "exclude-reorder-defect") (rest.contains "include-merge-sets-defect")) RestrictEng.step
     return 0
   | _ =>
     IO.eprintln "usage: hwmodel <engine>"
